@@ -542,9 +542,9 @@ def generation_mix(fn, var):
     return list(bad.values()), n_paths
 
 
-def rule_r5(chk, p, t):
+def rule_r5(chk, p, t, rid="C05.R5"):
     r = chk.rule(
-        "C05.R5",
+        rid,
         "calendar quantities follow the corrected year",
         2,
         "in the Julian date <-> calendar algorithms, once the year (or the day count) is corrected every quantity "
